@@ -1,0 +1,14 @@
+//go:build verif
+
+package hostsfile
+
+// Re-exports of unexported helpers for the verification harness in /verif.  This
+// file is compiled only with the "verif" build tag and changes no behaviour.
+
+var (
+	VerifCutField       = cutField
+	VerifCutStringField = cutStringField
+)
+
+// VerifSpaces is the cutset of the field separators.
+const VerifSpaces = spaces
